@@ -70,6 +70,14 @@ PROPS = {
         "rule": WORLD_RULE + "; each world becomes a request of 1-4 invocations against a server with 1-2 recording service methods", "trusted_base": VALIDATOR_TRUSTED,
         "assumptions": ["a model/implementation difference in receipt outcome or handler call log is itself a failing input: the model's run is proved to satisfy the property's iff"],
     },
+    "C17": {
+        "manifest": {"text": "Theorems on a step semantics of any number of threads running Put / Get / iteration under a read-write mutex, where the lock each method takes is a parameter read from /repo's blockstore.go by a go/ast fact extractor on every run (Generated/Facts.lean): C17_mutex (under a good discipline - Put under the write lock, Get and iteration under at least the read lock, no shared field touched outside - no reachable state of any program under any schedule has two threads in their critical sections while one mutates), generated_facts_good + C17_mutex_current (the discipline of the code as it is now is good: `by decide` on the regenerated facts, so a changed lock breaks this obligation), C17_linearizable (the store under any schedule is the sequential application of the operations in critical-section entry order), C17_contents and C17_seq (every put link retrievable, iteration duplicate free, first-put order), C17_pinned_race (machine-checked record: Put under the read lock reaches two concurrent writers). Partial: Go's memory model and map internals are outside the model. Validation: 2-8 goroutines x 5-200 operations on a real store (directly and through delegation.Attach/Blocks) under the race detector in crash-isolating workers, GOMAXPROCS in {1,2,4,16}; final contents and order checked against the sequential spec (order must be the first-put order of some interleaving).", "design_ref": "5.17", "note": "trusted: Lean kernel; the go/ast fact extractor (harness/facts.go) - a refactoring it cannot read makes the obligation fail rather than pass; atomicity of a critical section given mutual exclusion (Go memory model); schedules on the implementation are sampled"},
+        "obligations": ob("UcantoModel.Props.C17", "Lock.C17_mutex", "Lock.C17_linearizable", "Lock.C17_contents", "Lock.C17_seq", "Lock.C17_pinned_race", "Lock.reach_inv")
+                       + ob("UcantoModel.Props.C17Facts", "Lock.generated_facts_good", "Lock.C17_mutex_current", "Lock.exec_append_locked"),
+        "facts": True, "race": True, "mismatch_is_violation": True,
+        "rule": "goroutines in {2,3,4,8} x operations per goroutine in {5,20,60,200} x GOMAXPROCS in {1,2,4,16} x {store, delegation.Attach}; programs (60% Put over a small link pool so that duplicates collide, 30% Get, 10% full iteration) derived from the seed. every case non-trivial; distinct: hash of (op,args)",
+        "trusted_base": ["Model/Lock.lean (hand-written semantics of sync.RWMutex and of the three methods' critical sections)", "harness/facts.go (go/ast extractor)"],
+    },
     "C20": {
         "manifest": {"text": "Theorems on the model of carInbound.Accept + server.Handle + channel.Request: admits_spec (the negotiation admits a header iff it is empty or one of its comma separated media ranges, parameters and blanks aside, is the CAR type or */*), C20_415 / C20_406 / C20_400 / C20_200 (each status is answered exactly in its case), C20_nothing_runs (a 415/406/400 is decided before Execute is reached), C20_client (non-200 <=> error carrying the status); the pinned substring negotiation is kept with three machine-checked counterexamples. Correspondence: Server.Request on 7 content types x (18 media-range elements, all ordered pairs with two separators) x 7 body kinds (valid message, empty batch, empty, garbage, CAR whose root is not a message, CAR without roots, message with a missing invocation block) with a recording handler; the HTTP channel against a loopback server replying every status 200-599 with text and CAR bodies.", "design_ref": "5.20", "note": "trusted: Lean kernel; hand-written 30-line model of Accept/Handle/channel; net/http and the CAR/message decoders are outside the model (a body is classified by how it was built); header pairs are enumerated over a fixed element list, not all strings"},
         "obligations": ob("UcantoModel.Props.C20", "Http.admits_spec", "Http.C20_415", "Http.C20_406", "Http.C20_400", "Http.C20_200", "Http.C20_nothing_runs", "Http.C20_client",
